@@ -6,10 +6,10 @@ import sink
 import wgslgen as W
 
 ID = "C16"
-REQUIRES = ["Agree"]
+REQUIRES = ["Agree", "StrLit"]
 THEOREM_REQUIRES = ["C16"]
-THEOREMS = ["C16_roundtrip", "C16_literal_wellformed", "C16_source_field", "C16_include_only_source", "C16_text"]
-PROOF_FILES = ["Spec/Escape.v", "Properties/C16.v"]
+THEOREMS = ["C16_roundtrip", "C16_literal_wellformed", "C16_source_field", "C16_include_only_source", "C16_text", "C16_roundtrip_chars"]
+PROOF_FILES = ["Spec/Escape.v", "Proofs/StrLitProof.v", "Properties/C16.v"]
 RULE = ("valid shaders with comments / identifiers carrying quotes, backslashes, braces, CR, LF, CRLF, NUL and other C0/C1 "
         "controls, DEL, combining marks, RTL overrides, BOM, non-BMP characters, NUL followed by octal digits, very long "
         "lines; formatter on/off; embedded variant: the module is compiled against the recording shim and SOURCE is "
@@ -50,10 +50,12 @@ def cases(rng, tier):
     for k in range(8):
         out.append({"wgsl": head + "const MODE: u32 = %du;\n" % (k + 1) + tail, "family": "same_length_variants",
                     "opts": {"rustfmt": False}, "include": None})
+    for c_ in out:
+        c_["want_lit"] = True
     for i in range(n):
         base = sink.sink(rng, n_consts=2)["wgsl"] if i % 2 else W.random_program(rng).render()
         src = decorate(rng, base)
-        out.append({"wgsl": src, "family": "embedded", "opts": {"rustfmt": i % 4 == 0}, "include": None})
+        out.append({"wgsl": src, "family": "embedded", "opts": {"rustfmt": i % 4 == 0}, "include": None, "want_lit": True})
     big_pad = "\n".join("// padding line %d with some text to make the source long" % k for k in range(120))
     base = W.random_program(rng).render()
     out.append({"wgsl": (base + big_pad + "\n").replace("\n", "\r\n"), "family": "embedded_large_crlf", "opts": {"rustfmt": False}, "include": None})
@@ -99,6 +101,34 @@ def b_holds(c, r):
     return True
 
 
+def chars_clause(c, r):
+    """Coq-evaluated, on the characters of the SOURCE literal as printed in the returned text: (a) they are what
+    Spec/StrLit.v [literal_body] prints for the input (with the \\u{..} table read off the text itself), (b) the
+    model of rustc's unescaping reads them back as the input"""
+    lit = r.get("source_literal_chars")
+    if lit is None or c.get("include") is not None or len(lit) > 30000:
+        return "true", "true"
+    src = [ord(ch) for ch in c["wgsl"]]
+    # code points that appear as \u{..} in the printed literal
+    nu, i = set(), 0
+    text = "".join(chr(x) for x in lit)
+    import re
+    for mm in re.finditer(r"\\u\{([0-9a-fA-F]+)\}", text):
+        # only count it when the backslash is not itself escaped (an even number of backslashes before it)
+        j, n = mm.start() - 1, 0
+        while j >= 0 and text[j] == "\\":
+            n += 1
+            j -= 1
+        if n % 2 == 0:
+            nu.add(int(mm.group(1), 16))
+    nl = "[" + "; ".join("%d%%N" % x for x in sorted(nu)) + "]"
+    sl = "[" + "; ".join("%d%%N" % x for x in src) + "]"
+    ll = "[" + "; ".join("%d%%N" % x for x in lit) + "]"
+    a = "list_eqb N.eqb (literal_body (fun c => existsb (N.eqb c) %s) %s) %s" % (nl, sl, ll)
+    b = "match unescape %d %s with Some s => list_eqb N.eqb s %s | None => false end" % (len(lit) + 1, ll, sl)
+    return a, b
+
+
 def verdict_expr(c, r, ir, real):
     inc = "None" if c.get("include") is None else "(Some %s)" % coq_string(c["include"])
     extra = "true"
@@ -110,8 +140,9 @@ def verdict_expr(c, r, ir, real):
     if c.get("include") is not None:
         b_inc = ("match %s with Ok o => source_eqb (o_source o) (SrcInclude %s) && %s | _ => true end"
                  % (real, coq_string(c["include"]), extra.replace("match %s with Ok a =>" % real, "match Ok o with Ok a =>") if extra != "true" else "true"))
-    return ('[true; agree_res (fun a b => source_eqb (o_source a) (o_source b)) (gen %s %s %s %s) %s && %s; %s && %s]'
-            % (ir, coq_string(c["wgsl"]), inc, coq_options(c["opts"]), real, extra, "true" if b_holds(c, r) else "false", b_inc))
+    ca, cb = chars_clause(c, r)
+    return ('[true; agree_res (fun a b => source_eqb (o_source a) (o_source b)) (gen %s %s %s %s) %s && %s && %s; %s && %s && %s]'
+            % (ir, coq_string(c["wgsl"]), inc, coq_options(c["opts"]), real, extra, ca, "true" if b_holds(c, r) else "false", b_inc, cb))
 
 
 def verdict_expr_noout(c, r, ir):
